@@ -22,7 +22,7 @@ include!("gen_modules.rs");
 const IP: IpAddr = IpAddr::V4(Ipv4Addr::LOCALHOST);
 
 /// the protocol-specific response inside a generic one, rendered as the protocol families render it
-fn show_generic(b: &Box<dyn CommonResponse>) -> String {
+pub(crate) fn show_generic(b: &Box<dyn CommonResponse>) -> String {
     match b.as_original() {
         GenericResponse::Valve(r) => canon(r),
         GenericResponse::Unreal2(r) => canon_u2(r),
